@@ -688,11 +688,11 @@ def session_begin_wiring(prog):
                 m = ops.nodes[j]
                 if m['k'] == 'mem' and 'SessionBegin::' in (m.get('f') or ''):
                     tested.add(m['f'])
-    if len(tested) != 1:
-        raise AnalysisBroken('C07.R7: the member of SessionBegin that onSessionOpened tests was not identified (%s)' % sorted(tested))
-    fld = tested.pop()
-    rec = prog.record(fld.rsplit('::', 1)[0])
-    idx = [k for k, x in enumerate(rec['fields']) if (x.get('qname') or rec['qname'] + '::' + x['name']) == fld][0]
+    if not tested:
+        raise AnalysisBroken('C07.R7: onSessionOpened tests no member of SessionBegin')
+    tested = sorted(tested)
+    rec = prog.record(tested[0].rsplit('::', 1)[0])
+    idxs = {fld: [k for k, x in enumerate(rec['fields']) if (x.get('qname') or rec['qname'] + '::' + x['name']) == fld][0] for fld in tested}
     # the accessor of the "resumed" state: the member function of the stream manager that returns the member C07.R5 / C10.R1 call m_streamResumed
     def set_true_in(ptype):
         out = set()
@@ -728,10 +728,10 @@ def session_begin_wiring(prog):
         if f.entry is None or '/src/client/' not in f.file:
             continue
         for i, n in enumerate(f.nodes):
-            if n['k'] == 'initlist' and (n.get('t') or '').endswith('SessionBegin') and len(n.get('elems', [])) > idx:
-                sites.append((f, i, n['elems'][idx]))
-            if n['k'] == 'assign' and f.nodes[f.skip(n['l'])].get('f') == fld:
-                sites.append((f, i, n['r']))
+            if n['k'] == 'initlist' and (n.get('t') or '').endswith('SessionBegin') and len(n.get('elems', [])) > max(idxs.values()):
+                sites.append((f, i, {fld: n['elems'][k] for fld, k in idxs.items()}))
+            if n['k'] == 'assign' and f.nodes[f.skip(n['l'])].get('f') in idxs:
+                sites.append((f, i, {f.nodes[f.skip(n['l'])]['f']: n['r']}))
     if not sites:
         raise AnalysisBroken('C07.R7: no place builds a SessionBegin')
     def from_accessor(f, e, depth=0):
@@ -744,9 +744,10 @@ def session_begin_wiring(prog):
                 if d is not None and from_accessor(f, d, depth + 1):
                     return True
         return False
-    for f, i, e in sites:
-        ok = from_accessor(f, e)
-        if not ok:
+    for f, i, es in sites:
+        # among the members the table tests (one today) there is the one fed from the resumed accessor
+        if not any(from_accessor(f, e) for e in es.values()):
+            fld, e = sorted(es.items())[0]
             return ('%s builds the session-begin record with %s = %s, which is not the stream manager\'s "resumed" state (%s()): the outgoing-request table then keeps or cancels the '
                     'outstanding requests of the previous session on the wrong signal' % (f.display()[:50], fld.split('::')[-1], f.fmt(e, inline=False)[:50], acc[0].name)), f.loc(i)
     return None, sites[0][0].loc(sites[0][1])
